@@ -11,6 +11,12 @@ for pid in ids:
     if pid not in PROPS or not PROPS[pid].get("claimed", True):
         continue
     c = PROPS[pid]
+    gen = any("Props.Gen" in m for m in c.get("extra_modules", ()))
+    GEN_TEXT = (" For the functions listed in tools/rs2lean.py the model side is regenerated: their bodies are transcribed from /repo into a deep "
+                "embedding (Generated/RsFns.lean) on every run and theorems Cst.Gen.* show that evaluating the transcribed body gives what the model function "
+                "computes, for every argument.") if gen else ""
+    GEN_NOTE = " tools/rs2lean.py and the evaluator Model/Rs.lean (meaning of the transcribed Rust fragment) are trusted for the Cst.Gen.* theorems." if gen else ""
+    GEN_TECH = " + bodies of selected functions transcribed from the source on every run and proved to evaluate to the model" if gen else ""
     checks.append({
         "property_id": pid,
         "quick_cmd": f"./check {pid} --tier quick",
@@ -20,11 +26,11 @@ for pid in ids:
         "engine": "lean4-model+correspondence",
         "level_claimed": {
             "category": "proof",
-            "text": c.get("level_text", "Lean 4 theorems over a hand-written executable model, re-checked on every run together with instantiation lemmas over facts extracted from the source; the model is tied to the code by a differential correspondence check (same operations on the real crate and on the model's compiled definitions) plus an implementation-side oracle."),
+            "text": c.get("level_text", "Lean 4 theorems over a hand-written executable model, re-checked on every run together with instantiation lemmas over facts extracted from the source; the model is tied to the code by a differential correspondence check (same operations on the real crate and on the model's compiled definitions) plus an implementation-side oracle.") + GEN_TEXT,
             "design_ref": c.get("design_ref", "DESIGN.md §6 " + pid),
         },
-        "level_note": c.get("level_note", "Trusted: Lean kernel (axioms propext, Classical.choice, Quot.sound only), tools/extract_facts.py, the harness/driver/diff machinery, the hand-written model; external crates are assumed to meet their contracts. " + " ".join(c.get("assumptions", []))),
-        "technique": c.get("technique", "machine-checked proof in Lean 4 (induction/invariants over an executable model) + differential correspondence against the real crate"),
+        "level_note": c.get("level_note", "Trusted: Lean kernel (axioms propext, Classical.choice, Quot.sound only), tools/extract_facts.py, the harness/driver/diff machinery, the hand-written model; external crates are assumed to meet their contracts. " + " ".join(c.get("assumptions", []))) + GEN_NOTE,
+        "technique": c.get("technique", "machine-checked proof in Lean 4 (induction/invariants over an executable model) + differential correspondence against the real crate") + GEN_TECH,
     })
 na = []
 for pid in ids:
